@@ -631,6 +631,16 @@ def _other_sites():
         return (lambda: b.create_data_frame(nm, "t"),
                 lambda: b.create_data_frame(nm, "t", col_dict={"a": int}))
 
+    for fault, kw in (("data-element-type-mismatch", dict(col_dict={"a": int, "b": str}, data=[("x", "y")])),
+                      ("data-row-length-mismatch", dict(col_dict={"a": int, "b": int}, data=[(1,)])),
+                      ("unsupported-column-dtype", dict(col_dict={"a": object}))):
+        def _frame_bad(it, n, fault=fault, kw=kw):
+            b = it.handle(_blk(it, n))
+            nm = "c12-dfx-%d" % n
+            return (lambda: b.create_data_frame(nm, "t", **kw),
+                    lambda: b.create_data_frame(nm, "t", col_dict={"a": int, "b": str}, data=[(1, "y")]))
+        S["Block.create_data_frame/" + fault] = _frame_bad
+
     # ---------------- containers
     def cont(kind, fault):
         def build(it, n):
@@ -672,6 +682,93 @@ def _other_sites():
     def _(it, n):
         p = need(it.pick("prop", n))
         return (lambda: it.handle(p.parent).create_property(copy_from=it.handle(p)), None)
+
+    @reg("Block.create_multi_tag/copy-existing-name")
+    def _(it, n):
+        t = need(it.pick("mtag", n))
+        return (lambda: it.handle(t.parent).create_multi_tag(copy_from=it.handle(t)), None)
+
+    @reg("Block.create_data_frame/copy-existing-name")
+    def _(it, n):
+        t = need(it.pick("frame", n))
+        return (lambda: it.handle(t.parent).create_data_frame(copy_from=it.handle(t)), None)
+
+    for kind_, meth in (("tag", "create_tag"), ("mtag", "create_multi_tag"), ("frame", "create_data_frame")):
+        def _wrong(it, n, meth=meth):
+            blk = _blk(it, n)
+            a = need(it.pick("array", n, lambda t: t.parent is blk))
+            return (lambda: getattr(it.handle(blk), meth)(name="c12-cw-%d" % n, copy_from=it.handle(a)), None)
+        S["Block.%s/copy-wrong-kind" % meth] = _wrong
+
+    # ---------------- refusals that depend on what is already there (prior state x fault)
+    def _dim_linked(it, n, kind):
+        ok = lambda d: d["kind"] == kind and d.get("link") not in (None, "dangling")  # noqa: E731
+        a = need(it.pick("array", n, lambda x: any(ok(d) for d in x.info.get("dims", []))))
+        di = [i for i, d in enumerate(a.info["dims"]) if ok(d)][0]
+        return a, di
+
+    @reg("RangeDimension.ticks/unordered-on-linked")
+    def _(it, n):
+        a, di = _dim_linked(it, n, "range")
+        return (lambda: setattr(it.handle(a).dimensions[di], "ticks", [2.0, 1.0]), None)
+
+    @reg("RangeDimension.ticks/non-numeric-on-linked")
+    def _(it, n):
+        a, di = _dim_linked(it, n, "range")
+        return (lambda: setattr(it.handle(a).dimensions[di], "ticks", ["a", "b"]), None)
+
+    @reg("SetDimension.labels/non-string-on-linked")
+    def _(it, n):
+        a, di = _dim_linked(it, n, "set")
+        return (lambda: setattr(it.handle(a).dimensions[di], "labels", [1, 2]), None)
+
+    for kind_ in ("range", "set"):
+        def _relink_bad(it, n, kind_=kind_):
+            a, di = _dim_linked(it, n, kind_)
+            t = need(it.pick("array", n + 1, lambda x: x.parent is a.parent))
+            rank = len(t.info["shape"])
+            return (lambda: it.handle(a).dimensions[di].link_data_array(it.handle(t), [0] * (rank + 1)), None)
+        S["%sDimension.link_data_array/bad-index-on-linked" % kind_.capitalize()] = _relink_bad
+
+        def _link_wrong(it, n, kind_=kind_):
+            a, di = _dim_linked(it, n, kind_) if n % 2 else _dim(it, n, kind_)
+            wk = need(it.pick("tag", n) or it.pick("group", n) or it.pick("block", n))
+            return (lambda: it.handle(a).dimensions[di].link_data_array(it.handle(wk), [-1]), None)
+        S["%sDimension.link_data_array/wrong-kind" % kind_.capitalize()] = _link_wrong
+
+    for role in ("positions", "extents"):
+        def _derived(it, n, role=role):
+            # the array the call would create implicitly ('<name>-positions' / '<name>-extents') exists already,
+            # belongs to the user and is linked from a group: the refusal must not touch it
+            blk = _blk(it, n)
+            b = it.handle(blk)
+            nm = "c12-mtd-%s-%d" % (role, n)
+            taken = b.create_data_array("%s-%s" % (nm, role), "user", data=np.arange(4.0) + n)
+            taken.label = "precious"
+            g = it.pick("group", n, lambda x: x.parent is blk)
+            if g is not None:
+                it.handle(g).data_arrays.append(taken)
+            it.positional_ok = False
+            return (lambda: b.create_multi_tag(nm, "t", positions=[[1.0], [2.0]], extents=[[0.5], [0.5]]),
+                    lambda: b.create_multi_tag(nm + "-ok", "t", positions=[[1.0], [2.0]], extents=[[0.5], [0.5]]))
+        S["Block.create_multi_tag/derived-%s-name-taken" % role] = _derived
+
+    @reg("section.link/not-a-section")
+    def _(it, n):
+        sec = need(it.pick("section", n, lambda x: x.single.get("link") is not None) or it.pick("section", n))
+        blk = need(it.pick("block", n))
+        return (lambda: setattr(it.handle(sec), "link", it.handle(blk)), None)
+
+    @reg("mtag.extents/wrong-kind")
+    def _(it, n):
+        t = need(it.pick("mtag", n))
+        sec = need(it.pick("section", n))
+        return (lambda: setattr(it.handle(t), "extents", it.handle(sec)), None)
+
+    @reg("DataArray.append_range_dimension_using_self/not-1d")
+    def _(it, n):
+        a = need(it.pick("array", n, lambda x: len(x.info["shape"]) > 1 and x.info["dtype"] not in ("str", "bool")))
+        return (lambda: it.handle(a).append_range_dimension_using_self(), None)
     return S
 
 
@@ -802,6 +899,7 @@ FIXED_HISTORY = [
     {"op": "mk_dim", "da": 2, "kind": "sampled", "interval": 0.5, "unit": "s"},
     {"op": "mk_dim", "da": 2, "kind": "set", "labels": ["a", "b"]},
     {"op": "mk_dim", "da": 3, "kind": "range", "ticks": [1.0, 2.0]},
+    {"op": "dim_link", "da": 2, "dim": 1, "target": 4, "axis": 1, "index": [0, 0]},      # a linked set dimension
     {"op": "mk_prop", "sec": 2, "name": "ints", "vals": [1, 2, 3]},
     {"op": "mk_prop", "sec": 2, "name": "strs", "vals": ["a", "b"]},
 ]
